@@ -487,8 +487,10 @@ func mutations(t uint8, key int, b, msg []byte) []named {
 			x[1] = p
 			add(fmt.Sprintf("pk-prefix-%02x", p&0x06), x)
 		}
-		add("keysub-same-sig", secpKeySub(b, msg))
-		if ks := secpKeySub(b, msg); ks != nil { // and the mirror of the substituted key's signature
+		// Key substitution (a DIFFERENT public key Q' for which the same (r, s) verifies) is not generated as a
+		// mutation: another key is another actor address, which C17 does not forbid (see Props/C17.v, observations).
+		// The mirror of the substituted key's signature is still a malleation of a valid auth of Q' and must fail.
+		if ks := secpKeySub(b, msg); ks != nil {
 			rr, ss := new(big.Int).SetBytes(ks[so:so+32]), new(big.Int).SetBytes(ks[so+32:])
 			x := clone(ks)
 			copy(x[so:], fill32(rr))
@@ -505,10 +507,8 @@ func mutations(t uint8, key int, b, msg []byte) []named {
 			add(fmt.Sprintf("sig-flag-%02x", bit), y)
 		}
 		{
-			x := clone(b) // (-pk, -sig): a different key for which the negated signature verifies
-			x[1] ^= 0x20
-			x[so] ^= 0x20
-			add("keysub-negate-both", x)
+			// (-pk, -sig) verifies for the same message, but -pk is a different key, hence a different actor: not a
+			// C17 violation and not generated (see Props/C17.v, observations)
 			y := clone(b)
 			for i := 1; i < so; i++ {
 				y[i] = 0
